@@ -2,9 +2,13 @@
 import os, json, hashlib, subprocess, fnmatch
 
 ROOT = os.path.dirname(os.path.abspath(__file__))
+def OUT(src): return os.environ.get("VERIF_OUT_DIR") or (ROOT if src == "/repo/src" else None)
 REPO_PY = "/venv/bin/python"
 
 
+def _out(src):
+    import check
+    return check.OUT
 def _git_sha(src):
     try:
         top = subprocess.run(["git", "-C", src, "rev-parse", "HEAD"], capture_output=True, text=True).stdout.strip()
@@ -17,20 +21,20 @@ def _git_sha(src):
 def write_replay(pid, r, src):
     short = r["name"].split(".")[-1]
     h = hashlib.sha256((r["name"] + r["path"] + json.dumps(r.get("model"), sort_keys=True, default=str)).encode()).hexdigest()[:8]
-    path = os.path.join(ROOT, "replays", f"{pid}-{short}-{h}.json")
+    path = os.path.join(_out(src), "replays", f"{pid}-{short}-{h}.json")
     json.dump({"property": pid, "kind": "refuted-obligation", "obligation": r["name"], "path": r["path"], "unit": r.get("unit"), "source_tree": src, "source_sha": _git_sha(src),
                "solver": r["backend"], "solver_detail": r.get("detail"), "model": r.get("model"), "meta": r.get("meta"), "smt2": r.get("smt2"),
                "verdict": "refuted-by-solver", "concrete_input": None, "observed": None, "expected": None}, open(path, "w"), indent=1)
-    return os.path.relpath(path, ROOT)
+    return os.path.relpath(path, ROOT) if path.startswith(ROOT) else path
 
 
 def write_harness_replay(pid, fl, src):
     h = hashlib.sha256(json.dumps(fl, sort_keys=True, default=str).encode()).hexdigest()[:8]
-    path = os.path.join(ROOT, "replays", f"{pid}-{fl.get('harness', 'bounded')}-{h}.json")
+    path = os.path.join(_out(src), "replays", f"{pid}-{fl.get('harness', 'bounded')}-{h}.json")
     json.dump({"property": pid, "kind": "runtime-contract-failure", "obligation": "bounded:" + str(fl.get("check", fl.get("harness"))), "source_tree": src, "source_sha": _git_sha(src),
                "concrete_input": fl.get("input"), "observed": fl.get("observed"), "expected": fl.get("expected"), "what": fl.get("what"),
                "rerun": fl.get("rerun"), "verdict": "confirmed-on-real-code" if fl.get("input") is not None else "no-failing-input-found"}, open(path, "w"), indent=1, default=str)
-    return os.path.relpath(path, ROOT)
+    return os.path.relpath(path, ROOT) if path.startswith(ROOT) else path
 
 
 def _replayer(pid, obligation):
@@ -42,7 +46,7 @@ def _replayer(pid, obligation):
 
 def try_replay(pid, relpath, src, hreps=None):
     """concretise the counter-model and run it on the real code; falls back to a failing case of the property's run-time harness"""
-    path = os.path.join(ROOT, relpath); rec = json.load(open(path))
+    path = relpath if os.path.isabs(relpath) else os.path.join(ROOT, relpath); rec = json.load(open(path))
     script = _replayer(pid, rec["obligation"])
     if script:
         env = dict(os.environ, JAX_PLATFORMS="cpu", PYTHONPATH=os.path.join(ROOT, "replay") + (":" + src if src != "/repo/src" else ""))
